@@ -317,11 +317,31 @@ func (s *Solver) Close() {
 
 // Check decides satisfiability of the conjunction. Result is "sat", "unsat" or "unknown"
 // (unknown also covers solver errors: the caller must treat it as inconclusive).
-func (s *Solver) Check(lits []*Term, vars []*Term, wantModel bool, assertion bool) (string, Model) {
+func (s *Solver) Check(lits []*Term, vars []*Term, wantModel bool, assertion bool, hint string) (string, Model) {
 	t0 := time.Now()
 	defer func() { s.Stats.Time += time.Since(t0) }()
 	s.Stats.Queries++
-	res, m, err := s.primary.check(lits, vars, wantModel)
+	primary := s.primary
+	if hint == "int" {
+		// multiply/divide-by-constant kernels: integer encoding of the same bit-vector text first
+		for _, fb := range s.fallbacks {
+			if fb.name == "cvc5-int" {
+				primary = fb
+			}
+		}
+	}
+	var res string
+	var m Model
+	var err error
+	if primary != s.primary {
+		// fresh process per query: cvc5's integer translation is markedly weaker in incremental sessions
+		res, m, err = oneShot(primary, lits, vars, wantModel)
+	} else {
+		res, m, err = primary.check(lits, vars, wantModel)
+	}
+	if primary != s.primary && (err != nil || res == "unknown") {
+		res, m, err = s.primary.check(lits, vars, wantModel)
+	}
 	if err != nil {
 		s.Stats.Errors++
 		res = "unknown"
@@ -359,4 +379,64 @@ func (s *Solver) Check(lits []*Term, vars []*Term, wantModel bool, assertion boo
 		s.Stats.Unknown++
 	}
 	return res, m
+}
+
+// oneShot decides one query in a fresh solver process.
+func oneShot(b *backend, lits []*Term, vars []*Term, wantModel bool) (string, Model, error) {
+	tmp := &backend{name: b.name, defined: map[int32]bool{}}
+	var sb strings.Builder
+	sb.WriteString("(set-logic ALL)\n(set-option :produce-models true)\n")
+	for _, l := range lits {
+		tmp.define(&sb, l)
+	}
+	if wantModel {
+		for _, v := range vars {
+			tmp.define(&sb, v)
+		}
+	}
+	for _, l := range lits {
+		sb.WriteString("(assert " + ref(l) + ")\n")
+	}
+	sb.WriteString("(check-sat)\n")
+	if wantModel && len(vars) > 0 {
+		sb.WriteString("(get-value (")
+		for _, v := range vars {
+			sb.WriteString(v.name + " ")
+		}
+		sb.WriteString("))\n")
+	}
+	argv := append([]string{}, b.argv[1:]...)
+	for i, a := range argv {
+		if a == "--incremental" {
+			argv = append(argv[:i], argv[i+1:]...)
+			break
+		}
+	}
+	cmd := exec.Command(b.argv[0], argv...)
+	cmd.Stdin = strings.NewReader(sb.String())
+	out, err := cmd.Output()
+	text := string(out)
+	first := strings.TrimSpace(text)
+	if i := strings.IndexByte(first, '\n'); i >= 0 {
+		first = first[:i]
+	}
+	switch first {
+	case "sat":
+		var m Model
+		if wantModel && len(vars) > 0 {
+			rest := text[strings.Index(text, "sat")+3:]
+			if strings.Contains(rest, "(error") {
+				return "unknown", nil, nil
+			}
+			m, err = parseModel(rest, vars)
+			if err != nil {
+				return "unknown", nil, nil
+			}
+		}
+		return "sat", m, nil
+	case "unsat":
+		return "unsat", nil, nil
+	}
+	_ = err
+	return "unknown", nil, nil
 }
